@@ -352,7 +352,14 @@ func (a *aboFlat) stmts(sc *aboScope, list []ast.Stmt, cond bool, inVerify bool)
 		return leaf
 	}
 	exits := func(b *ast.BlockStmt) (bool, bool) { return aboReturnsNil(b) }
-	for _, st := range list {
+	// a conditional `return nil` after which the rest of this statement list raises no event at all (only logging, publishing, …)
+	// is the same as wrapping that rest into `if !c { … }`: it is not a stop of the pipeline
+	restSilent := func(i int) bool {
+		dry := &aboFlat{fset: a.fset, byName: a.byName, funcs: a.funcs, stack: a.stack, pipelineFile: a.pipelineFile}
+		dry.stmts(sc, list[i+1:], cond, inVerify)
+		return len(dry.ev) == 0
+	}
+	for idx, st := range list {
 		switch s := st.(type) {
 		case *ast.ExprStmt:
 			call(s.X)
@@ -404,6 +411,8 @@ func (a *aboFlat) stmts(sc *aboScope, list []ast.Stmt, cond bool, inVerify bool)
 			}
 			guardEv := func(text string, isNil bool) {
 				switch {
+				case isNil && restSilent(idx):
+					// nothing of the pipeline is skipped by this early `return nil`
 				case isNil:
 					a.emit(cond, "stop", text)
 				case text == "err!=nil" && lastCall != "":
